@@ -94,6 +94,26 @@ func runC30(c *Ctx) {
 		callers := c.staticCallers(rc)
 		allowed := map[string]bool{"(*blockchain.BlockChain).connectBestChain": true, "(*blockchain.BlockChain).ReorganizeChain": true}
 		var bad []string
+		// an unexported helper of the package that is itself called only from allowed functions is part of them
+		for changed := true; changed; {
+			changed = false
+			for f := range callers {
+				if allowed[fname(f)] || token.IsExported(f.Name()) {
+					continue
+				}
+				up := c.staticCallers(f)
+				all := len(up) > 0
+				for g := range up {
+					if !allowed[fname(g)] {
+						all = false
+					}
+				}
+				if all {
+					allowed[fname(f)] = true
+					changed = true
+				}
+			}
+		}
 		for f := range callers {
 			if !allowed[fname(f)] {
 				bad = append(bad, fname(f))
@@ -247,8 +267,12 @@ func runC30(c *Ctx) {
 func runC12(c *Ctx) {
 	c.R.Rule("G2-work", "connectBestChain: reorganizeChain is reachable only through the false arm of node.WorkSum.Cmp(b.BestChain.WorkSum) <= 0 (strictly more work) and of IsIrreversible (C30); extending the tip goes through connectBlock")
 	c.R.Rule("G1-valid", "processBlock reaches maybeAcceptBlock only after CheckBlockSanity passed; connectBlock reaches SaveBlock only after CheckBlockContext passed; maybeAcceptBlock accumulates WorkSum as parent sum + own work before connectBestChain")
-	cbc := c.fn("blockchain", "BlockChain", "connectBestChain")
-	if cbc != nil {
+	cbc0 := c.fn("blockchain", "BlockChain", "connectBestChain")
+	if cbc0 != nil {
+		// the side-chain decision may live in a helper connectBestChain ends in
+		cbc, cbcVia := c.relocateVia(cbc0, func(g *ssa.Function) bool {
+			return firstCall(g, callPred(R{"blockchain", "BlockChain", "reorganizeChain"})) != nil
+		})
 		rc := firstCall(cbc, callPred(R{"blockchain", "BlockChain", "reorganizeChain"}))
 		fromNode := func(v ssa.Value) bool {
 			return ssau.IsFieldOf(ssau.Unwrap(v), "BlockNode", "WorkSum") && ssau.DependsOn(v, func(x ssa.Value) bool { return paramNamed(x, "node") })
@@ -257,12 +281,38 @@ func runC12(c *Ctx) {
 			return ssau.IsFieldOf(ssau.Unwrap(v), "BlockNode", "WorkSum") && ssau.DependsOn(v, func(x ssa.Value) bool { return ssau.IsFieldOf(x, "BlockChain", "BestChain") })
 		}
 		// required: node work > best work (any equivalent spelling of the big.Int comparison)
-		c.G2("G2-work", "connectBestChain|more work than the tip", cbc, rc, "node.WorkSum > b.BestChain.WorkSum (big.Int.Cmp)", bigRelArm(fromNode, fromBest, func(c int) bool { return c > 0 }))
+		workSel := bigRelArm(fromNode, fromBest, func(c int) bool { return c > 0 })
+		workFn, workTarget := cbc, ssa.Instruction(rc)
+		if cbcVia != nil {
+			// the comparison may have stayed in connectBestChain, in front of the call of the helper
+			inHelper := false
+			withVia(cbcVia, func() {
+				for _, i := range ssau.Ifs(cbc) {
+					if m, _ := safeSel(workSel, i); m {
+						inHelper = true
+					}
+				}
+			})
+			if !inHelper {
+				workFn, workTarget = cbc0, cbcVia
+			}
+		}
+		if workFn == cbc0 {
+			c.G2("G2-work", "connectBestChain|more work than the tip", workFn, workTarget, "node.WorkSum > b.BestChain.WorkSum (big.Int.Cmp)", workSel)
+		} else {
+			withVia(cbcVia, func() {
+				c.G2("G2-work", "connectBestChain|more work than the tip", workFn, workTarget, "node.WorkSum > b.BestChain.WorkSum (big.Int.Cmp)", workSel)
+			})
+		}
 		// nothing else keeps a heavier side chain from being adopted: every branch that decides whether reorganizeChain
 		// can still run is the tip-extension test, the work comparison or the irreversibility test
 		if rc != nil {
 			nd := 0
-			for _, i := range divertingBranches(cbc, rc) {
+			deciding := divertingBranches(cbc, rc)
+			if cbcVia != nil {
+				deciding = append(deciding, divertingBranches(cbc0, cbcVia)...)
+			}
+			for _, i := range deciding {
 				nd++
 				kind := ""
 				base, _ := ssau.StripNot(i.Cond)
@@ -283,7 +333,19 @@ func runC12(c *Ctx) {
 			c.R.FloorCheck("G2-work deciding branches", nd, 3)
 		}
 		// the tip-extension arm: connectBlock checked
-		c.G1s("G2-work", "connectBestChain|connectBlock or reorganize", cbc, "connectBlock / reorganizeChain", callPred(R{"blockchain", "BlockChain", "connectBlock"}, R{"blockchain", "BlockChain", "reorganizeChain"}), G1Opt{HasIdx: true, Idx: 2, IgnoreExit: func(ret *ssa.Return) bool {
+		connectOrReorg := callPred(R{"blockchain", "BlockChain", "connectBlock"}, R{"blockchain", "BlockChain", "reorganizeChain"})
+		if cbcVia != nil {
+			inner := connectOrReorg
+			helper := cbc
+			connectOrReorg = func(cm *ssa.CallCommon) bool { return inner(cm) || cm.StaticCallee() == helper }
+			c.G1s("G2-work", "connectBestChain|reorganize in "+helper.Name(), helper, "reorganizeChain", inner, G1Opt{HasIdx: true, Idx: 2, IgnoreExit: func(ret *ssa.Return) bool {
+				if k, ok := ret.Results[0].(*ssa.Const); ok && k.Value != nil && k.Value.String() == "false" {
+					return true
+				}
+				return false
+			}})
+		}
+		c.G1s("G2-work", "connectBestChain|connectBlock or reorganize", cbc0, "connectBlock / reorganizeChain", connectOrReorg, G1Opt{HasIdx: true, Idx: 2, IgnoreExit: func(ret *ssa.Return) bool {
 			// exits that report "not in main chain" (first result false) do not claim a connection
 			if k, ok := ret.Results[0].(*ssa.Const); ok && k.Value != nil && k.Value.String() == "false" {
 				return true
